@@ -112,7 +112,7 @@ class ActingAgent(PrincipleAgent):
         if type(self.action_space) is dict:
             self.action_space = gu.make_dict(self.action_space)
         self.action_space.seed(self.seed)
-        if self.null_action:
+        if not (type(self.null_action) is dict and len(self.null_action) == 0):
             assert self.null_action in self.action_space, \
                 "The null action must be in the action space."
 
@@ -166,7 +166,7 @@ class ObservingAgent(PrincipleAgent):
         if type(self.observation_space) is dict:
             self.observation_space = gu.make_dict(self.observation_space)
         self.observation_space.seed(self.seed)
-        if self.null_observation:
+        if not (type(self.null_observation) is dict and len(self.null_observation) == 0):
             assert self.null_observation in self.observation_space, \
                 "The null observation must be in the observation space."
 
